@@ -496,6 +496,27 @@ func genC04(r *rand.Rand, tier string) []Case {
 		c.ReadProg = []bool{true, false, true, true, false, true}
 		cases = append(cases, c)
 	}
+	// record lengths at the boundaries of the length varints (127/128, 16383/16384, and for compressed files payloads
+	// whose COMPRESSED length sits there)
+	for k := 0; k < 3; k++ {
+		c := &c04Case{Comp: []int{0, 2, 0}[k], WBuf: 4096, RBuf: 4096, SeekLen: 4096}
+		for _, n := range []int{127, 128, 129, 16383, 16384, 16385} {
+			rec := make([]byte, n)
+			r.Read(rec)
+			if c.Comp == 2 {
+				// snappy stores incompressible input with a few bytes of framing: search the input length whose compressed form has n bytes
+				for d := 0; d < 64; d++ {
+					if m := n - d; m > 0 && len(compressBytes(2, rec[:m])) == n {
+						rec = rec[:m]
+						break
+					}
+				}
+			}
+			c.Prog = append(c.Prog, wOp{Op: []string{"write", "writesync"}[k%2], Rec: rec})
+		}
+		c.ReadProg = []bool{true, false, true, true, false, true, true}
+		cases = append(cases, c)
+	}
 	// a payload that contains the complete image of a record (a record whose payload is itself a serialized record)
 	for k := 0; k < 2; k++ {
 		c := &c04Case{Comp: 0, WBuf: 4096, RBuf: 4096, SeekLen: []int{4, 4096}[k], Embedded: true}
